@@ -24,7 +24,7 @@ ASSUMPTIONS = [
     "negative Batcher indices and batch_size<=0 are outside the statement and not judged",
     "reference definitions written independently in this file are the specification",
 ]
-SHARD_TIMEOUT = {"quick": 600, "thorough": 3000}
+SHARD_TIMEOUT = {"quick": 300, "thorough": 3000}
 
 FAMILIES = ["roman", "subseq-list", "subseq-tuple", "subseq-str", "compare", "argsort", "batcher", "batcher-iter",
             "batcher-huge"]
